@@ -165,6 +165,93 @@ static void int_inc(json_object *o, int64_t inc, int neg, uint64_t mag, const ch
 	ev_end();
 }
 
+/* the same value reached through a history of sets (a node's representation may depend on its past: a string moved
+ * to a separate buffer, an integer that changed store, a double that had retained text) */
+static json_object *string_via_history(const char *s)
+{
+	static const char fill[] = "a considerably longer string than anything in the lattice: it forces a separate buffer....";
+	json_object *n;
+	switch (vh_below(5))
+	{
+	case 0: return json_object_new_string(s);
+	case 1:
+		n = json_object_new_string("");
+		json_object_set_string(n, fill);
+		json_object_set_string(n, s);
+		return n;
+	case 2:
+		n = json_object_new_string(fill);
+		json_object_set_string(n, s);
+		return n;
+	case 3:
+		n = json_object_new_string("x");
+		json_object_set_string(n, fill);
+		json_object_set_string(n, "");
+		json_object_set_string(n, s);
+		return n;
+	default:
+		n = json_object_new_string_len(s, (int)strlen(s) > 0 ? (int)strlen(s) - 1 : 0);
+		json_object_set_string(n, s);
+		return n;
+	}
+}
+static json_object *uint_via_history(uint64_t u)
+{
+	json_object *n;
+	switch (vh_below(4))
+	{
+	case 0: return json_object_new_uint64(u);
+	case 1:
+		n = json_object_new_int64(-5);
+		json_object_set_uint64(n, u);
+		return n;
+	case 2:
+		n = json_object_new_int(7);
+		json_object_set_int64(n, INT64_MAX);
+		json_object_set_uint64(n, u);
+		return n;
+	default:
+		n = json_object_new_uint64(UINT64_MAX);
+		json_object_set_uint64(n, u);
+		return n;
+	}
+}
+static json_object *int_via_history(int64_t v)
+{
+	json_object *n;
+	switch (vh_below(4))
+	{
+	case 0: return json_object_new_int64(v);
+	case 1:
+		n = json_object_new_uint64(UINT64_MAX);
+		json_object_set_int64(n, v);
+		return n;
+	case 2:
+		n = json_object_new_int64(v / 2);
+		json_object_int_inc(n, v - v / 2);
+		return n;
+	default:
+		n = json_object_new_int(0);
+		json_object_set_int64(n, v);
+		return n;
+	}
+}
+static json_object *double_via_history(double d)
+{
+	json_object *n;
+	switch (vh_below(3))
+	{
+	case 0: return json_object_new_double(d);
+	case 1:
+		n = json_object_new_double_s(7.25, "7.250");
+		json_object_set_double(n, d);
+		return n;
+	default:
+		n = json_object_new_double(-1.0);
+		json_object_set_double(n, d);
+		return n;
+	}
+}
 static int drive(int start, int nexec)
 {
 	const char *seed = getenv("VERIF_SEED");
@@ -181,11 +268,11 @@ static int drive(int start, int nexec)
 			uint64_t u = (x == 0 && k < (int)NLAT) ? lat[k] : (vh_below(2) ? lat[vh_below(NLAT)] + vh_below(3) - 1 : vh_rand());
 			if (x > 0 && vh_below(4) == 0)
 				u >>= vh_below(64);
-			json_object *o = json_object_new_uint64(u);
+			json_object *o = uint_via_history(u);
 			accessors(o, "int", 0, u, 1);
 			json_object_put(o);
 			int64_t s = (int64_t)u;
-			o = json_object_new_int64(s);
+			o = int_via_history(s);
 			accessors(o, "int", s < 0, s < 0 ? (uint64_t)0 - (uint64_t)s : (uint64_t)s, 1);
 			json_object_put(o);
 		}
@@ -202,7 +289,7 @@ static int drive(int start, int nexec)
 					b = (b & 0x800fffffffffffffull) | ((uint64_t)(1023 + 20 + vh_below(50)) << 52);
 				memcpy(&d, &b, 8);
 			}
-			json_object *o = json_object_new_double(d);
+			json_object *o = double_via_history(d);
 			accessors(o, "double", 0, 0, 0);
 			json_object_put(o);
 		}
@@ -232,7 +319,7 @@ static int drive(int start, int nexec)
 				}
 				s = tmp;
 			}
-			json_object *o = json_object_new_string(s);
+			json_object *o = string_via_history(s);
 			accessors(o, "string", 0, 0, 0);
 			json_object_put(o);
 		}
